@@ -157,6 +157,10 @@ class Conn(object):
             elif ev[0] == "T":
                 self.p.on_timeout()
             elif ev[0] == "L":
+                # a regular close by the peer: asyncio reports the end of the stream first, then the lost connection
+                eof = getattr(self.p, "eof_received", None)
+                if callable(eof):
+                    eof()
                 self.p.connection_lost(None)
         except Exception as e:  # noqa
             exc = exc_name(e)
